@@ -76,6 +76,7 @@ fn main() {
         tier,
         threads: std::env::var("VERIF_THREADS").ok().and_then(|s| s.parse().ok()).unwrap_or(16),
         verif_dir,
+        home_dir: std::env::var("VERIF_HOME").map(PathBuf::from).unwrap_or_else(|_| PathBuf::from("/verif")),
         scale: std::env::var("VERIF_SCALE").ok().and_then(|s| s.parse().ok()).unwrap_or(1.0),
         hang_secs: std::env::var("VERIF_HANG_SECS").ok().and_then(|s| s.parse().ok()).unwrap_or(60),
     };
